@@ -626,8 +626,18 @@ def run_impl(scn, mode, oseed):
     for t, script in enumerate(scn.tbs):
         sim.add_testbench(_mk_testbench(t, script, scn.cds, trace))
     # "native": the engine's own set order, only counted (so that a non-terminating loop is detected)
-    install_order(sim, added, mode, oseed)
+    guard = install_order(sim, added, "sorted" if mode == "rerun" else mode, oseed)
     try:
+        if mode == "rerun":
+            # the same Simulator after reset(): circuits, circuit-replacing processes and testbenches restart, and the
+            # observations of the second run are the ones reported (seeded change C08-r5-1)
+            if scn.mode[0] == "run":
+                sim.run()
+            else:
+                sim.run_until(Period(fs=scn.mode[1]))
+            sim.reset()
+            del trace[:]
+            guard[0] = 0
         if scn.mode[0] == "run":
             sim.run()
         else:
@@ -848,6 +858,8 @@ def scenario_job(args):
     for k, variant, scn in scns:
         case = {"seed": seed, "index": k, "variant": variant, "desc": describe(scn), "per_job": n_scn}
         orders = [("sorted", 0), ("native", 0), ("reverse", 0)] + [("shuffle", rng.getrandbits(32)) for _ in range(n_perm)]
+        if not getattr(scn, "rows", None):
+            orders.append(("rerun", 0))
         runs = []
         try:
             for mode, oseed in orders:
@@ -1712,6 +1724,11 @@ def judge_scenario(chk, case, pair):
     chk.count(len(runs))
     ref_order, ref = runs[0]
     for order, tr in runs[1:]:
+        if tr != ref and order[0] == "rerun":
+            chk.violation("the second run of one Simulator after reset() gives other testbench observations than its first run",
+                          dict(base, kind="rerun", order_a=ref_order, order_b=order, trace_a=ref[:3000], trace_b=tr[:3000],
+                               request=case["req"][:8000], classes=[]))
+            return
         if tr != ref:
             chk.violation(f"the observation trace depends on the iteration order of the ready processes: order {order} differs from {ref_order}",
                           dict(base, kind="schedule", order_a=ref_order, order_b=order, trace_a=ref[:3000], trace_b=tr[:3000],
